@@ -21,6 +21,10 @@ type Header struct {
 	// Whole packet length (fixed header + variable part).
 	pktLength uint16
 	pktType   PacketType
+	// The header was received in the 3-octet Length form. The specification
+	// allows (but does not require) the 1-octet form for packets shorter
+	// than 256 octets, hence the wire form can't be derived from pktLength.
+	longForm bool
 }
 
 func NewHeader(pktType PacketType, varPartLength uint16) *Header {
@@ -39,6 +43,7 @@ func (h *Header) PacketType() PacketType {
 //
 // See MQTT-SN specification v. 1.2, chapter 5.2 General Message Format.
 func (h *Header) SetVarPartLength(length uint16) {
+	h.longForm = false
 	if length+shortHeaderLength <= 255 {
 		h.pktLength = length + shortHeaderLength
 	} else {
@@ -64,7 +69,7 @@ func (h *Header) PacketLength() uint16 {
 //
 // See MQTT-SN specification v. 1.2, chapter 5.2 General Message Format.
 func (h *Header) HeaderLength() uint16 {
-	if h.pktLength <= 255 {
+	if h.pktLength <= 255 && !h.longForm {
 		return shortHeaderLength
 	} else {
 		return longHeaderLength
@@ -79,13 +84,18 @@ func (h *Header) Unpack(buf []byte) error {
 
 	lengthByte := buf[0]
 	if lengthByte == longPacketFlag {
-		// Long packet (>255B)
+		// 3-octet Length form (mandatory for packets >255B)
+		if len(buf) < longHeaderLength {
+			return fmt.Errorf("bad packet length: expected >=%d, got %d", longHeaderLength, len(buf))
+		}
 		h.pktLength = binary.BigEndian.Uint16(buf[1:3])
 		h.pktType = PacketType(buf[3])
+		h.longForm = true
 	} else {
 		// Short packet (<=255B)
 		h.pktLength = uint16(lengthByte)
 		h.pktType = PacketType(buf[1])
+		h.longForm = false
 	}
 
 	return nil
